@@ -230,6 +230,18 @@ def _fn_body(ctx, rel, name):
     return ctx.fn(rel, name)
 
 
+def stop_predicate_obligation(eng, s, more, csi_b):
+    """the predicate handed to query_terminal decides where reading stops.  The replies are answered in order and DA1 is asked last,
+    so everything is consumed (by the drain that follows) only if reading goes on until the DA1 reply has begun: for EVERY text read
+    so far, `more` may say stop only if that text ends with CSI"""
+    read = z3.String("read_so_far")
+    for v2, s2 in eng.call(more, (read,), {}, s.fork()):
+        stop = Not(to_z3(v2)) if is_sym(v2) else (not v2)
+        eng.oblige("reading-stops-only-once-the-DA1-reply-has-begun(what-was-read-ends-with-CSI)", s2,
+                   Implies(stop, z3.SuffixOf(z3.StringVal(csi_b.decode("latin1")), read)), kind="post", replay="C12.unread")
+        eng.oblige("reading-stops-as-soon-as-the-DA1-reply-begins", s2, Implies(z3.SuffixOf(z3.StringVal(csi_b.decode("latin1")), read), stop), kind="post")
+
+
 @unit("C12", "utils:get_fg_bg_colors")
 def u_fg_bg(ctx):
     obs = []
@@ -254,6 +266,7 @@ def u_fg_bg(ctx):
                             out.append((None, s2))      # contract of query_terminal: None and no terminal access when queries are disabled
                             continue
                         s2.ghost["queries"] += 1
+                        s2.ghost["more"] = a[1] if len(a) > 1 else k.get("more")
                         out.append((None if resp_kind == "none" else s2.new("response", {"kind": resp_kind}), s2))
                     return out
 
@@ -296,6 +309,8 @@ def u_fg_bg(ctx):
                                z3.If(enabled, z3.BoolVal(bool(same(fg, want("10")) is not False and same(bg, want("11")) is not False)) if not any(is_sym(x) for x in (same(fg, want("10")), same(bg, want("11")))) else And(same(fg, want("10")), same(bg, want("11"))),
                                      z3.BoolVal(fg is None and bg is None)), kind="post")
                     eng.oblige("rest-of-the-reply-drained-iff-queries-enabled", s, s.ghost["reads"] == z3.If(enabled, 1, 0), kind="post")
+                    if s.ghost.get("more") is not None and replies == ("10", "11") and not hex_:
+                        stop_predicate_obligation(eng, s, s.ghost["more"], cs.d["CSI_b"])
                 obs += eng.obligations
     return obs
 
